@@ -470,7 +470,9 @@ class Builder:
         avail = self.snap(F(float(S.volumes[0, col])) - F(S.min_volume))
         room = self.snap(min(F(D.max_volume) - F(float(D.volumes[D.indices[w]])) for w in dws))
         M = self.cfg["max_volume"]
-        cap = self.adj(max(F(0), min(avail / n, room, M)))
+        import math as _m
+        g8 = lambda x: F(_m.floor(x * 8), 8)
+        cap = g8(self.adj(max(F(0), min(avail / n, room, M))))
         x = rng.random()
         if x < 0.1:
             v = F(0)
@@ -479,7 +481,7 @@ class Builder:
         else:
             v = grid(rng, 0, cap)
         if fail == "underflow":
-            v = min(M, max(F(0), avail) / n + rng.choice(STEPS) + (F(1, 2) if self.inexact else 0))
+            v = min(M, g8(max(F(0), avail) / n) + 1 + rng.choice(STEPS) + (F(1, 2) if self.inexact else 0))
             if v * n <= avail + (1 if self.inexact else 0):
                 return None
         elif fail == "overflow":
